@@ -392,6 +392,51 @@ theorem crash_images_of_the_index_write (F : Bytes) (ip : Nat) (ix : Index) (k j
     ∃ m, crashImage F (indexEvs (F.length + ip) ix) k j = F ++ zeros ip ++ (indexChunks ix).flatten.take m :=
   crashImage_chunks_hole (indexChunks ix) F ip k j
 
+/-- (13) **A Put is crash-safe at every byte** — (1), (2) and (10) together. An un-finalised file holding the
+    acknowledged blocks, a Put of `b` cut after ANY `k` writes and `j` bytes: reopening either fails and
+    leaves the payload window byte-for-byte (every acknowledged block intact), or succeeds with the store of
+    exactly the acknowledged blocks, or — only when the whole section had reached the disk — with those
+    blocks and `b`. -/
+theorem put_is_crash_safe (api : Api) (o : WOpts) (roots : Option (List Cid)) (acked : List Block) (b : Block) (k j : Nat)
+    (hwf : (CarHeader.mk roots 1).wf) (hmax : (encodeHeaderBody ⟨roots, 1⟩).length ≤ o.maxHeader)
+    (hmax32 : (encodeHeaderBody ⟨roots, 1⟩).length ≤ 32 * 2 ^ 20) (hlog : LogOK' acked)
+    (hb : b.cid.wf ∧ b.cid.digest.length ≤ maxDigestAlloc ∧ b.cid.byteLen + b.data.length < 2 ^ 63) :
+    let F := o.filePrefix (zeros 40) ++ payload roots acked
+    let image := crashImage F (ldWriteEvs F.length [b.cid.bytes, b.data]) k j
+    ((∃ e, (resume api o roots image).res = .error e) ∧ (resume api o roots image).file.drop o.base = image.drop o.base) ∨
+    (∃ s, (resume api o roots image).res = .ok s ∧ s.closed = false ∧ s.finalized = false ∧
+      (Inv o roots s acked ∨ Inv o roots s (acked ++ [b]))) := by
+  intro F image
+  obtain ⟨m, hm, himg⟩ := crash_images_of_a_put F b k j
+  have hplen := o.filePrefix_length (zeros 40) (by simp [zeros])
+  by_cases h0 : m = 0
+  · right
+    obtain ⟨s, hr, inv, hc, hf⟩ := crash_on_boundary api o roots acked hwf hmax hmax32 hlog
+    refine ⟨s, ?_, hc, hf, Or.inl inv⟩
+    show (resume api o roots image).res = _
+    rw [show image = F from by rw [show image = _ from himg, h0]; simp]
+    exact hr
+  · by_cases hfull : m = sectionSize b
+    · right
+      have hlog' : LogOK' (acked ++ [b]) := by
+        intro x hx
+        rcases List.mem_append.mp hx with h | h
+        · exact hlog x h
+        · simp at h; subst h; exact hb
+      obtain ⟨s, hr, inv, hc, hf⟩ := crash_on_boundary api o roots (acked ++ [b]) hwf hmax hmax32 hlog'
+      refine ⟨s, ?_, hc, hf, Or.inr inv⟩
+      have : image = o.filePrefix (zeros 40) ++ payload roots (acked ++ [b]) := by
+        rw [show image = _ from himg, hfull, ← sectionBytes_length, List.take_of_length_le (Nat.le_refl _)]
+        simp [F, payload, sectionsBytes]
+      rw [this]; exact hr
+    · left
+      have hcut := crash_inside_section api o roots acked b m hwf hmax hmax32 hlog hb (by omega) (by omega)
+      simp only at hcut
+      have : image = o.filePrefix (zeros 40) ++ (payload roots acked ++ (sectionBytes b).take m) := by
+        rw [show image = _ from himg]; simp [F]
+      rw [this]
+      refine ⟨hcut.1, ?_⟩
+      rw [hcut.2, List.drop_left' hplen]
 /-- Non-vacuity of (6)/(7): a concrete session, header cut at 37 and at 25 bytes. -/
 example : LayoutOK 0 0 60 ∧ (32 ≤ 37 ∧ 37 ≤ 40) ∧ (24 ≤ 25 ∧ 25 ≤ 32 ∧ 60 % 256 ^ (25 - 24) ≠ 0) := by
   refine ⟨⟨by decide, by decide, by decide⟩, by decide, by decide⟩
